@@ -5,20 +5,20 @@ open PyGql.Heap
 
 /-- the variant of clone / _replace_types_and_directives / _extend_* present in the working tree -/
 def currentCfg : Cfg := {
-  keepAllTypes := false,
-  deepClone := false,
-  accumulateBusted := false,
-  cloneSchemaDres := false,
-  extObjDres := false,
-  extFieldSub := false,
-  extFieldPy := false,
-  extIfaceRtype := false,
-  extUnionDesc := false,
-  extUnionRtype := false,
-  extArgPy := false,
-  extInputPy := false,
-  extKeepAll := false,
-  extSchemaDres := false,
-  extInputFieldExtended := false
+  keepAllTypes := true,
+  deepClone := true,
+  accumulateBusted := true,
+  cloneSchemaDres := true,
+  extObjDres := true,
+  extFieldSub := true,
+  extFieldPy := true,
+  extIfaceRtype := true,
+  extUnionDesc := true,
+  extUnionRtype := true,
+  extArgPy := true,
+  extInputPy := true,
+  extKeepAll := true,
+  extSchemaDres := true,
+  extInputFieldExtended := true
 }
 end PyGql.Generated.HeapCfg
